@@ -112,6 +112,9 @@ class Sched:
         self.steps = 0
         self.switches = 0
         self.max_steps = max_steps
+        self.parks = []             # [{"task": name, "nth": k, "release": callable, "timeout": virtual seconds}]
+        self.line_count = {}
+        self.parked_at = []
         self.events = collections.deque(maxlen=log_len)
         self.deaths = []
         self.preempt_enabled = True
@@ -291,6 +294,16 @@ class Sched:
         if me is None or not self.preempt_enabled:
             return
         self.line_events += 1
+        if self.parks:
+            # directed windows: "this task is descheduled at its n-th source line until <condition>" - a schedule every
+            # preemptive system can produce, placed deliberately instead of waiting for the random walk to find it
+            n = self.line_count[me.name] = self.line_count.get(me.name, 0) + 1
+            for pk in self.parks:
+                if not pk.get("done") and pk["task"] == me.name and n >= pk["nth"]:
+                    pk["done"] = True
+                    pk["at"] = kind
+                    self.parked_at.append((me.name, kind))
+                    self.block_until(pk["release"], pk.get("timeout", 30.0), "parked")
         if self.strategy == "rr":
             return
         if self.strategy == "rw" and self.rng.random() >= self.p:
